@@ -168,6 +168,14 @@ def rel_atoms(atoms):
             parts = _split_top(m.group(2))
             if len(parts) == 2:
                 out.append((m.group(1), parts[0], parts[1]))
+            continue
+        # `match a.cmp(&b) { Less => .., Equal => .., Greater => .. }` on integers is the same three relations
+        m = re.match(r"^.*Ord for [ui](?:8|16|32|64|128|size)>::(?:partial_)?cmp\((.*)\) is (not )?(Less|Equal|Greater)$", a)
+        if m:
+            parts = _split_top(m.group(1))
+            if len(parts) == 2:
+                op = {("Less", None): "Lt", ("Equal", None): "Eq", ("Greater", None): "Gt", ("Less", "not "): "Ge", ("Equal", "not "): "Ne", ("Greater", "not "): "Le"}[(m.group(3), m.group(2))]
+                out.append((op, parts[0], parts[1]))
     return out
 
 
@@ -264,6 +272,12 @@ class Classifier:
                 for (rop, x, y) in rels:
                     if (rop in ("Ge", "Gt") and x == a and y == b) or (rop in ("Le", "Lt") and x == b and y == a):
                         auto = ("guarded", "dominating comparison %s(%s,%s)" % (rop, x[:40], y[:40]))
+                if auto is None:
+                    # the checked form of the same (or of the opposite) subtraction already decided the order:
+                    # a.checked_sub(b) is Some => a >= b;  b.checked_sub(a) is None => b < a
+                    for at_ in atoms:
+                        if at_.endswith("::checked_sub(%s,%s) is Some" % (a, b)) or at_.endswith("::checked_sub(%s,%s) is None" % (b, a)):
+                            auto = ("guarded", "the checked form of this subtraction decided the order of the operands: %s" % at_[-120:])
                 if auto is None and (a.startswith("Add(%s," % b) or a.endswith(",%s)" % b) and a.startswith("Add(")):
                     auto = ("interval", "minuend is a sum containing the subtrahend")
                 if auto is None and b.startswith("Rem(%s," % a):
@@ -369,6 +383,63 @@ class Classifier:
         elif kind.startswith("Panic:"):
             desc = "%s[%s]" % (kind, "; ".join(a for a in norm_atoms(atoms))[-1500:])
         return desc, atoms, auto
+
+    def own_condition(self, f, s):
+        """The condition of the assertion / panic itself.  A debug assertion starts with a test of the constant
+        `cfg!(debug_assertions)`: its own condition is what the tests between that one and the panicking block
+        established (every edge that dominates the panic and lies behind the marker).  Without a marker (assert!,
+        panic! in a match arm): the switch edge that leads into the panicking block."""
+        g = guards(self.ctx, f)
+        if g._dom is None:
+            g._compute()
+        node = ("t", s["bb"])
+        doms = [(e, info) for e, info in g._dom.items() if node in info[0] and node != e]
+        markers = [(e, info) for e, info in doms if list(g.describe_all(info[1], info[2], info[3])) == ["(const:1)"]]
+        if markers:
+            m = min(markers, key=lambda x: len(x[1][0]))
+            out = []
+            for e, (dom, bb, val, vals) in doms:
+                if e != m[0] and e in m[1][0]:
+                    out += list(g.describe_all(bb, val, vals)) + list(g._refine(bb, val, vals, 0))
+            # (what held before the assertion started is context, not the assertion)
+            before = set(g.atoms_at(("t", m[1][1])))
+            return sorted(set(a for a in out if a != "(const:1)" and a not in before))
+        preds = g.prov._preds()
+        live = lambda p: not f.blocks[p]["cleanup"] and f.blocks[p]["term"]["t"] != "unreachable"
+        cur = s["bb"]
+        for _ in range(12):
+            ps = [p for p in preds.get(cur, []) if live(p)]
+            if len(ps) != 1:
+                return []
+            p = ps[0]
+            t = f.blocks[p]["term"]
+            if t["t"] == "switch":
+                vals = [str(x) for x, _ in t["arms"]] + ["otherwise"]
+                tg = [b_ for _, b_ in t["arms"]] + [t["otherwise"]]
+                out = []
+                for k_, b_ in enumerate(tg):
+                    if b_ == cur:
+                        out += list(g.describe_all(p, vals[k_], vals)) + list(g._refine(p, vals[k_], vals, 0))
+                return sorted(set(out))
+            cur = p
+        return []
+
+    def panic_signature(self, f, s):
+        """What an assertion is about, independent of how it is spelled: the fields, constants and functions its own
+        condition mentions."""
+        from core import numeric
+        toks = set()
+        for a in self.own_condition(f, s):
+            a = numeric(a)
+            if re.match(r"^!?\(?phi\((const:[01]\|?)+\)\)?$", a):
+                continue        # a boolean flag by itself says nothing; what it was computed from is in the refined atoms
+            toks |= set(re.findall(r"\.([a-z_]\w*)", a))
+            toks |= {"const:" + c.split("::")[-1] for c in re.findall(r"const:([\w:]+)", a)}
+            # (of the functions in the operands' provenance only the ones that say what is measured: how an id or an
+            # entry was obtained changes with ordinary refactoring)
+            toks |= {t_.split("::")[-1] for t_ in re.findall(r"([A-Za-z_][\w:]*)\(", a)} & {"len", "is_empty", "count", "max", "min", "Add", "Sub", "Mul", "Div", "Rem", "is_ascii", "is_some", "is_none", "contains"}
+            toks |= {"is:" + v for v in re.findall(r" is (?:not )?([\w:]+)$", a)}
+        return ",".join(sorted(toks))
 
     def audited(self, f, kind, desc, atoms):
         """Matching audited-table entry or None."""
@@ -711,6 +782,14 @@ def sink(which):
                 if frozen is not None and not e.get("kind") and not e.get("desc") and not any(k_.split("|")[0] == s["kind"] for k_ in frozen) and not e["class"].startswith("known-finding"):
                     res.fail(Finding(res.rule, key + "/new-sink-under-old-audit", "panic-capable site %s is new in %s: the audited discharge for this function (%s) was written for other sites and does not cover it (conditions on the path: %s)" % (desc[:140], p.split("::")[-1], e["reason"][:100], "; ".join(a[:60] for a in atoms[:3]) or "none"), f, s["span"]))
                     continue
+                # an assertion is covered by the audit only if it was there when the audit was made: the same thing
+                # asserted (fields / constants / functions of its own condition), however it is spelled
+                psigs = ctx.table("sink_keys").get("panics")
+                if psigs is not None and s["kind"].startswith("Panic:") and not e["class"].startswith("known-finding"):
+                    sig = cl.panic_signature(f, s)
+                    if sig not in psigs.get(p, []):
+                        res.fail(Finding(res.rule, "%s/%s/%s/assertion-not-in-audit/%s" % (res.rule, p, s["kind"], sig[:80]), "the assertion / panic about {%s} in %s was not there when this function's panic sites were audited (%s): nothing establishes that it cannot fire (its condition: %s)" % (sig[:100], p.split("::")[-1], e["reason"][:80], "; ".join(a[:80] for a in cl.own_condition(f, s)[:2]) or "unconditional"), f, s["span"]))
+                        continue
                 miss = [rx for rx in e.get("require", []) if not atoms_match(rx, na)]
                 cls = e["class"]
                 reason = e["reason"]
@@ -802,3 +881,27 @@ def _caller_satisfies(ctx, q, cf, cc, rx, depth):
         if callers and all(_caller_satisfies(ctx, q, f2, c2, rx, depth + 1) for (f2, c2) in callers):
             return True
     return False
+
+
+def treeid_in(pid, prefix, why):
+    """R-TREEID: the TreeId part of R-QUAL, for the functions under `prefix` only and with its own clause."""
+    def run(ctx):
+        from qual import Qual
+        res = RuleResult("R-TREEID(%s)" % pid, why)
+        spec = ctx.table("qual").get("TreeId")
+        n = 0
+        if spec:
+            q = Qual(ctx, spec)
+            for (sinkfn, ai) in spec["sinks"]:
+                for (cf, cc) in q.callers_of(sinkfn):
+                    if not cf.path.startswith(prefix):
+                        continue
+                    n += 1
+                    ok, reason = q.check(cf, cc, ai)
+                    if ok:
+                        res.ok({"caller": cf.path, "sink": sinkfn.split("::")[-1], "why": reason[:120]}, nontrivial=True)
+                    else:
+                        res.fail(Finding(res.rule, "R-TREEID/%s/%s" % (cf.path, sinkfn.split("::")[-1]), "%s: %s reaches an entry through an id that does not come from the walk (ROOT, a link compared with NO_STREAM, a lookup, a fresh slot): %s" % (cf.path.split("::")[-1], sinkfn.split("::")[-1], reason[:220]), cf, cc.term["span"]))
+        res.floor("tree positions", n, ctx.table("floors").get("treeid_sites_" + pid, 0))
+        return res
+    return run
